@@ -39,6 +39,9 @@ pub mod collections {
     #[verifier::external_body]
     #[verifier::accept_recursive_types(T)]
     pub struct HashSet<T> { v: Vec<T> }
+    /// `set` is what collecting the sequence `s` into a HashSet gives (relation left
+    /// uninterpreted except through the axioms used by index::ls' contract)
+    pub uninterp spec fn hashset_from<T>(set: HashSet<T>, s: Seq<T>) -> bool;
 }
 pub mod hash {
     use vstd::prelude::*;
